@@ -111,6 +111,9 @@ pub struct Net {
     pub cross_domain: bool,
     pub tape_used: usize,
     pub faults_applied: u32,
+    /// per sending participant: offset of its wall clock against the receivers' (seconds). The only
+    /// place a sender's clock shows on the wire is INFO_TS, which is rewritten accordingly.
+    pub clock_skew_s: Vec<i64>,
 }
 
 impl Net {
@@ -130,6 +133,7 @@ impl Net {
             cross_domain: false,
             tape_used: 0,
             faults_applied: 0,
+            clock_skew_s: vec![],
         }
     }
 
@@ -169,6 +173,14 @@ impl Net {
         if !self.endpoints.get(from).map(|e| e.connected).unwrap_or(true) {
             return;
         }
+        let skewed;
+        let buf = match self.clock_skew_s.get(from).copied().unwrap_or(0) {
+            0 => buf,
+            skew => {
+                skewed = skew_info_ts(buf, skew);
+                &skewed[..]
+            }
+        };
         for to in 0..self.endpoints.len() {
             let class = locators.iter().find_map(|l| self.classify(to, l));
             let Some(class) = class else { continue };
@@ -307,6 +319,28 @@ impl WriteMessage for SimWriter {
             w.net.send(now, self.0, buf, locators)
         })
     }
+}
+
+/// Adds `skew_s` seconds to every INFO_TS timestamp of an RTPS message.
+pub fn skew_info_ts(buf: &[u8], skew_s: i64) -> Vec<u8> {
+    let mut b = buf.to_vec();
+    let mut p = 20;
+    while p + 4 <= b.len() {
+        let (id, flags) = (b[p], b[p + 1]);
+        let le = flags & 1 == 1;
+        let len = if le { u16::from_le_bytes([b[p + 2], b[p + 3]]) } else { u16::from_be_bytes([b[p + 2], b[p + 3]]) } as usize;
+        if id == 0x09 && flags & 2 == 0 && p + 8 <= b.len() {
+            let raw = [b[p + 4], b[p + 5], b[p + 6], b[p + 7]];
+            let s = if le { u32::from_le_bytes(raw) } else { u32::from_be_bytes(raw) };
+            let s2 = (s as i64 + skew_s).clamp(0, u32::MAX as i64) as u32;
+            b[p + 4..p + 8].copy_from_slice(&if le { s2.to_le_bytes() } else { s2.to_be_bytes() });
+        }
+        if len == 0 {
+            break;
+        }
+        p += 4 + len;
+    }
+    b
 }
 
 pub fn user_locator(idx: usize) -> Locator {
